@@ -211,6 +211,19 @@ theorem accepted_changes_own_did_only (c : Cfg) (s s' : Store) (tx : Tx) (pd : O
   have hg := (add_get c.store s s' (eventOf tx d) hadd).1 id hid
   exact ⟨hg, fun rm => by unfold resolve; rw [hg]⟩
 
+/-- **All histories.** After ANY sequence of deliveries (any length, any mix of hostile and legitimate pairs, starting
+    from the empty store) every event in every DID's event list — and the store's versions and `Resolve` answers are
+    a function of exactly these lists (C10 `store_is_fold`) — is the (transaction, document) of a delivery of that
+    history which was accepted in the state the history had reached at that point; so it satisfied
+    `callback_accepts_iff` / `accepted_create_sound` / `accepted_update_sound` there. -/
+theorem resolvable_only_if_accepted (c : Cfg) (l : List (Tx × Option NDoc)) (id : String) (e : Event)
+    (h : e ∈ ((runHist c {} l).get id).events) :
+    ∃ pre tx d post, l = pre ++ (tx, some d) :: post ∧ e = eventOf tx d ∧ d.id = id ∧
+      (step c (runHist c {} pre) tx (some d)).2 = "ok" := by
+  rcases runHist_events c l {} id e h with h0 | h1
+  · simp [Store.get, alGet] at h0
+  · exact h1
+
 /-! ### controller resolution is bounded -/
 
 /-- **Depth bound.** Whenever `resolve` (remaining depth `n`) succeeds for a DID there is a chain of at most `n`
@@ -425,6 +438,14 @@ example : runAll [
     (createTx 600 "z", docOf "y" ["y"] ["y"])]
   = ["ok", "ok", "err:update:not-signed-by-controller", "ok", "err:update:not-signed-by-controller",
      "err:create:thumbprint-mismatch"] := by decide
+
+-- `resolvable_only_if_accepted` is not vacuous: after this history (accepted, accepted, refused) the DID's event list
+-- holds exactly the two accepted transactions
+example : ((runHist cfg0 {} [
+    (createTx 100 "a", some (docOf "a" ["a", "b"] ["a", "b"])),
+    (updateTx 200 [100] "did:nuts:Da" "b", some (docOf "a" ["a", "b"] ["a"])),
+    (updateTx 300 [200] "did:nuts:Da" "b" 30, some (docOf "a" ["a", "b"] ["a", "b"]))]).get "did:nuts:Da").events.map (·.ref)
+  = [100, 200] := by decide
 
 -- a DID controlled by another DID: the controller's key authorises (prevs name both versions); after the controller
 -- is deactivated its key no longer authorises relative to the deactivating transaction — and (by design, see
